@@ -125,15 +125,25 @@ def nop : Bytes := [110, 111, 45, 112]
 
 /-! ### The repaired encoding (proposed_fixes/F15-index-collision.md)
 
-  One discriminator byte instead of the variable-length ASCII sentinels: bit 0 = a path-id is
-  present, bit 1 = an RD is present; then the path-id (if any), the mask byte, the RD (if any) and
-  the prefix. Labels stay out of the index, as today. -/
-def flagByte (a : IpNlri) : Nat := (if a.path.isSome then 1 else 0) + (if a.rd.isSome then 2 else 0)
+  The ASCII sentinels are kept (`b'disabled'`, `b'no-pi'`) and an explicit path identifier is
+  introduced by `b'path'`: the three tags start with different bytes (`d`, `n`, `p`) and each has a
+  fixed length once its first byte is known, so they form a prefix-free code. IPVPN adds one byte
+  after the mask saying whether an RD follows. Labels stay out of the index, as today. -/
+def pathWord : Bytes := [112, 97, 116, 104]
+
+def tagFix (k : Kind) : Option Bytes → Bytes
+  | none => disabled
+  | some p => if k ≠ .inet ∧ p = [0, 0, 0, 0] then nopi else pathWord ++ p
+
+def rdFlag (a : IpNlri) : Bytes :=
+  match a.kind with
+  | .vpn => [if a.rd.isSome then 1 else 0]
+  | _ => []
 
 def indexFix (a : IpNlri) : Bytes :=
-  famIndex a.afi a.safi ++ [flagByte a] ++ optBytes a.path ++ [rdBits a + a.mask] ++ optBytes a.rd ++ a.pfx
+  famIndex a.afi a.safi ++ tagFix a.kind a.path ++ [rdBits a + a.mask] ++ rdFlag a ++ optBytes a.rd ++ a.pfx
 
-/-- The repaired `__hash__`: `hash(self.index())`. -/
+/-- The repaired `__hash__` of Label / IPVPN: `hash(self.index())`. -/
 def hashKeyFix (a : IpNlri) : Bytes := indexFix a
 
 end Exa.Index
